@@ -60,84 +60,3 @@ Theorem C01_unpack_pack : forall d, Canon d ->
              (forall ck, poly_to_data_full (ck :: ws) = Some (set_ck d ck, true)).
 Proof. exact canon_pack. Qed.
 Print Assumptions C01_unpack_pack.
-
-(* ---- the tie to the code: both packing functions as TRANSLATED from /repo's current gf.c on this
-   run (Gen/CFuns.v) are the ones the round trip above is about *)
-Theorem C01_code_tie_pack : forall d poly, Canon d -> length poly = 16%nat ->
-  CFuns.polyseed_data_to_poly (Z.of_N (d_birthday d)) (Z.of_N (d_features d)) (map Z.of_N (d_secret d)) (map Z.of_N poly)
-  = map Z.of_N (hd 0 poly :: spec_data_words (abs_data d)).
-Proof. exact tie_data_to_poly. Qed.
-Print Assumptions C01_code_tie_pack.
-
-Theorem C01_code_tie_unpack : forall c sec d, length c = 16%nat -> wf (tl c) -> hd 0 c < 2 ^ 64 ->
-  poly_to_data_full c = Some (d, true) ->
-  CFuns.polyseed_poly_to_data (map Z.of_N c) sec =
-  (Z.of_N (d_birthday d), Z.of_N (d_features d), map Z.of_N (d_secret d), Z.of_N (d_checksum d)).
-Proof. exact tie_poly_to_data. Qed.
-Print Assumptions C01_code_tie_unpack.
-
-(* ---- the tie to the code: src/polyseed.c as TRANSLATED on this run (Gen/CApi.v) ---- *)
-From Coq Require Import String.
-From PS Require Import Base GFDefs PackDefs StoreDefs MiscDefs StrDefs LangDefs ApiDefs GFProofs PackProofs StoreProofs CTieBase CTieLang CTiePhrase CTiePhraseEv CTieSplit CTieApi CTieDecode CTieEncode.
-From PS.Gen Require Import Consts PrivConsts Langs.
-From PS.Gen Require CFuns.
-From PS.Gen Require CApi.
-
-(* polyseed_encode as translated against the mirror step: the phrase written is the words of the 16 coefficients joined by the separator, composed when the language asks for it *)
-Theorem C01_code_tie_api_encode :
-  forall (sgn : bool) (st : state) (fuel li : nat) (L : lang),
-         nth_error langs li = Some L ->
-         (forall j : nat, (Datatypes.length (nth j (l_words L) []) + 1 <= fuel)%nat) ->
-         (Datatypes.length (l_separator L) + 1 <= fuel)%nat ->
-         (forall x : bytes, snd (dp_nfc (st_deps st) x) < 2 ^ 64) ->
-         forall (h : N) (d : data) (coin : N) (out0 : list Z),
-         heap_get (st_heap st) h = Some d ->
-         Canon d ->
-         d_checksum d < 2048 ->
-         coin < 2048 ->
-         (1 <= Datatypes.length out0)%nat ->
-         match step sgn langs st (OpEncode h li coin) with
-         | (st', OutStr o nn, evs) =>
-             exists (cevs : list CApi.cev) (rest : list Z),
-               CApi.polyseed_encode fuel sgn (znfc (st_deps st))
-                 (fun _ i : Z => zs (nth (Z.to_nat i) (l_words L) [])) (fun _ : Z => zs (l_separator L))
-                 (fun _ : Z => if l_compose L then 1%Z else 0%Z) (Z.of_N (d_birthday d))
-                 (Z.of_N (d_features d)) (map Z.of_N (d_secret d)) (Z.of_N (d_checksum d)) 
-                 (Z.of_nat li) (Z.of_N coin) out0 = Some (cevs, zs o ++ 0%Z :: rest, Z.of_N nn) /\
-               evs_of (st_deps st) cevs = evs /\ st' = st
-         | (st', OutFault, _) | (st', OutUnit, _) | (st', OutNum _, _) | (st', OutStatus _ _ _, _) |
-           (st', OutBytes _, _) => True
-         end.
-Proof. exact @tie_encode. Qed.
-Print Assumptions C01_code_tie_api_encode.
-
-(* polyseed_decode_explicit as translated against the mirror step *)
-Theorem C01_code_tie_api_decode_explicit :
-  forall (sgn : bool) (st : state) (fuel : nat) (D : list Z -> list Z * Z) (ext : Z -> list Z -> Z),
-         (forall (li : nat) (L : lang) (w : bytes),
-          nth_error langs li = Some L -> ext (Z.of_nat li) (zs w) = enc (lang_search sgn L w)) ->
-         (18 <= fuel)%nat ->
-         forall (str : bytes) (coin : N) (li : nat) (L : lang) (ok : bool) (gb gf : Z) 
-           (gs : list Z) (gc so0 : Z),
-         nth_error langs li = Some L ->
-         no_nul str ->
-         coin < 2048 ->
-         (Datatypes.length str + 2 <= fuel)%nat ->
-         D (zs str) = (zs (fst (dp_nfkd (st_deps st) str)), Z.of_N (snd (dp_nfkd (st_deps st) str))) ->
-         no_nul (fst (dp_nfkd (st_deps st) str)) ->
-         (Datatypes.length (fst (dp_nfkd (st_deps st) str)) + 2 <= fuel)%nat ->
-         let
-         '(st', out0, evs) := step sgn langs st (OpDecodeExplicit str coin li ok) in
-          exists (cevs : list CApi.cev) (b f : Z) (s : list Z) (c so status : Z),
-            CApi.polyseed_decode_explicit fuel sgn D ext (alloc_ptr st ok) CFuns.polyseed_mul2_table
-              (Z.of_N (st_reserved st)) (zs str) (Z.of_N coin) (Z.of_nat li) gb gf gs gc so0 =
-            Some (cevs, b, f, s, c, so, status) /\
-            evs_of (st_deps st) cevs = evs /\
-            out0 = OutStatus (Z.to_N status) (if (status =? 0)%Z then Some (st_next st) else None) None /\
-            (if (status =? 0)%Z
-             then
-              so = ptr (st_next st) /\
-              (exists d : data, st_heap st' = (st_next st, d) :: st_heap st /\ (b, f, s, c) = zd d)
-             else so = so0 /\ st_heap st' = st_heap st).
-Proof. exact @tie_decode_explicit. Qed.
-Print Assumptions C01_code_tie_api_decode_explicit.
